@@ -22,6 +22,11 @@ import (
 // map (where each key-value pair counts as two items).
 const MaxArrayDecodeLength = 100_000
 
+// MaxDecodeDepth limits how deeply arrays, maps and tags may be nested within
+// one item. Without a limit the work done for a hostile input (recursion and
+// error wrapping at every level) grows quadratically with its length.
+const MaxDecodeDepth = 128
+
 // Major types (high 3 bits)
 const (
 	unsignedIntMajorType byte = 0x00
@@ -222,7 +227,21 @@ func Unmarshal(data []byte, v any) error {
 type Decoder struct {
 	r io.Reader
 
+	// nesting depth of the array, map or tag currently being decoded
+	depth int
+
 	DecoderOptions
+}
+
+// nest is called when the items contained in an array, map or tag are about
+// to be decoded and fails if they would be nested too deeply. The returned
+// function must be called when the container has been decoded.
+func (d *Decoder) nest() (leave func(), _ error) {
+	if d.depth >= MaxDecodeDepth {
+		return nil, fmt.Errorf("nesting exceeds max depth: %d", MaxDecodeDepth)
+	}
+	d.depth++
+	return func() { d.depth-- }, nil
 }
 
 // DecoderOptions configure advanced behavior of the Decoder.
@@ -310,6 +329,12 @@ func (d *Decoder) decodeRawVal(highThreeBits, lowFiveBits byte, additional []byt
 			return nil, err
 		}
 
+		leave, err := d.nest()
+		if err != nil {
+			return nil, err
+		}
+		defer leave()
+
 		decoded := head
 		for i := range length {
 			b, err := d.decodeRaw()
@@ -322,6 +347,12 @@ func (d *Decoder) decodeRawVal(highThreeBits, lowFiveBits byte, additional []byt
 
 	// Tag types are decoded like a simple value followed by another value
 	case tagMajorType:
+		leave, err := d.nest()
+		if err != nil {
+			return nil, err
+		}
+		defer leave()
+
 		wrapped, err := d.decodeRaw()
 		if err != nil {
 			return nil, err
@@ -615,6 +646,12 @@ func (d *Decoder) decodeByteSlice(rv reflect.Value, additional []byte) error {
 }
 
 func (d *Decoder) decodeArray(rv reflect.Value, additional []byte) error {
+	leave, err := d.nest()
+	if err != nil {
+		return err
+	}
+	defer leave()
+
 	kind := rv.Kind()
 	if kind == reflect.Interface && !rv.IsNil() {
 		kind = rv.Elem().Kind()
@@ -803,6 +840,12 @@ func (d *Decoder) decodeArrayItems(rv reflect.Value, sliceType reflect.Type, len
 }
 
 func (d *Decoder) decodeMap(rv reflect.Value, additional []byte) error {
+	leave, err := d.nest()
+	if err != nil {
+		return err
+	}
+	defer leave()
+
 	kind := rv.Kind()
 	if kind == reflect.Interface && !rv.IsNil() {
 		kind = rv.Elem().Kind()
